@@ -19,12 +19,14 @@ MINR = sp.Function("MINR")
 MAXR = sp.Function("MAXR")
 CEIL = sp.Function("CEIL")
 FLOOR = sp.Function("FLOOR")
+NUMEL = sp.Symbol("NUMEL", positive=True, integer=True)  # element count of the whole (N, *) tensor
 
 
 class SampleAlgebra(ToSympy):
-    def __init__(self, x_name="x", const=None, dim_ok=(0,), **kw):
+    def __init__(self, x_name="x", const=None, dim_ok=(0,), flat=False, **kw):
         super().__init__(**kw)
         self.x_name, self.const, self.dim_ok = x_name, const, dim_ok
+        self.flat = flat  # True only when the sample is analysed as one flattened population (dim=None): numel() is then the sample size
         self.hooks = [self.sample_hook] + list(self.hooks)
         self.dims_seen = []
 
@@ -68,7 +70,11 @@ class SampleAlgebra(ToSympy):
         if t.op == "size" and len(a) == 2:
             self.dims_seen.append(("size", a[1]))
             return Nn
-        if t.op in ("size", "numel"):
+        if t.op == "numel":
+            # for an (N, *) sample numel() = N * prod(*) is NOT the number of paths; it equals it only for a flattened population
+            self.dims_seen.append(("numel", None))
+            return Nn if self.flat else NUMEL
+        if t.op == "size":
             return Nn
         if t.op == "getitem" and isinstance(a[0], Op) and a[0].op == "size":
             self.dims_seen.append(("size", a[1]))
